@@ -384,3 +384,12 @@ def r5(ctx):
             yield r
     if not n:
         yield MISSING("C16-R5", "timestamp/no-instance", "no timestamp instance of C02-R1 / C02-R1h")
+
+
+@M.rule("C16-R6", "header-carrier text is the header's bytes widened one by one (shared with C02-R9)")
+def r_latin1(ctx):
+    import c02
+
+    for r in c02.r9(ctx):
+        r.rule = "C16-R6"
+        yield r
